@@ -187,7 +187,8 @@ impl Stats {
     }
     pub fn violation(&mut self, v: Violation) {
         self.count(&format!("violations[{}]", v.signature));
-        if self.violations.len() < VIOLATION_CAP {
+        let same = self.violations.iter().filter(|o| o.signature == v.signature).count();
+        if same < 3 && self.violations.len() < VIOLATION_CAP {
             self.violations.push(v);
         }
     }
@@ -209,7 +210,8 @@ impl Stats {
             *self.counters.entry(k).or_insert(0) += v;
         }
         for v in o.violations {
-            if self.violations.len() < VIOLATION_CAP {
+            let same = self.violations.iter().filter(|x| x.signature == v.signature).count();
+            if same < 3 && self.violations.len() < VIOLATION_CAP {
                 self.violations.push(v);
             }
         }
@@ -338,7 +340,7 @@ impl Ctx {
 
         let _ = std::fs::create_dir_all(format!("{}/replays", VERIF_DIR));
         let mut replay_paths = vec![];
-        for (n, v) in unknown.iter().enumerate().take(5) {
+        for (n, v) in unknown.iter().enumerate().take(8) {
             let path = format!("{}/replays/{}-{}-{}.json", VERIF_DIR, self.prop, self.seed, n);
             let body = json!({
                 "property": self.prop, "kind": v.kind, "signature": v.signature,
